@@ -281,11 +281,17 @@ pub mod read {
             if read_more(&mut buffer, &mut reader, read, max_len, timeout).await? == 0 {
                 break;
             }
-            if !(utils::valid_method(&buffer) || utils::valid_version(&buffer)) {
+            // A short first segment may hold only part of the method or version token
+            // (the longest one is `PROPPATCH`): judge the start once enough bytes, or the
+            // whole head, are there.
+            let complete = contains_two_newlines(&buffer);
+            if (complete || buffer.len() >= 9)
+                && !(utils::valid_method(&buffer) || utils::valid_version(&buffer))
+            {
                 return Err(Error::Syntax);
             }
 
-            if contains_two_newlines(&buffer) {
+            if complete {
                 break;
             }
         }
